@@ -422,12 +422,42 @@ def v_shuffled_sampler(p):
   p.verify('UniformShuffledClientSampler.sample', eng, body_sample)
 
 
+def v_stream_sources(p):
+  """'the same seeded client stream': every shuffled_clients implementation draws only from RandomState(seed) built from its
+  seed parameter as given (0 is a seed like any other) - no global numpy RNG, clock, OS entropy, hash() or id()."""
+  import ast
+  from .. import own
+  from ..extract import parse
+  found = 0
+  for rel in ('fedjax/core/federated_data.py', 'fedjax/core/in_memory_federated_data.py', 'fedjax/core/sqlite_federated_data.py'):
+    _, tree = parse(rel)
+    for cls_ in [n for n in tree.body if isinstance(n, ast.ClassDef)]:
+      for fn in [n for n in cls_.body if isinstance(n, ast.FunctionDef) and n.name == 'shuffled_clients']:
+        if not fn.body or all(isinstance(b, (ast.Expr, ast.Pass, ast.Raise)) for b in fn.body):
+          continue     # the abstract declaration
+        found += 1
+        _, nondet = own.analyze_function(fn, f'{cls_.name}.shuffled_clients')
+        rs = [c for c in ast.walk(fn) if isinstance(c, ast.Call) and ast.unparse(c.func).endswith('random.RandomState')]
+        seeded = len(rs) == 1 and len(rs[0].args) == 1 and not rs[0].keywords and ast.unparse(rs[0].args[0]) == 'seed' and \
+            not any(isinstance(t, ast.Name) and t.id == 'seed' for a in ast.walk(fn) if isinstance(a, (ast.Assign, ast.AugAssign))
+                    for t in (a.targets if isinstance(a, ast.Assign) else [a.target]))
+        p.oblige(f'stream.sources:{cls_.name}', [], z3.BoolVal(not nondet and seeded), kind='frame',
+                 fn=f'{cls_.name}.shuffled_clients',
+                 detail=f'{rel}::{cls_.name}.shuffled_clients builds exactly one RandomState(seed) from its unmodified seed '
+                        f'parameter and uses no other source of randomness ({nondet})')
+  p.oblige('stream.sources.sites', [], z3.BoolVal(found >= 3), kind='post', fn='shuffled_clients',
+           detail=f'{found} shuffled_clients implementations analysed (vacuity guard)')
+
+
 def build(p):
   D = 'native/C13.py'
   p.native('get_pseudo_random_state', D, 'get')
   p.native('UniformGetClientSampler', D, 'get')
   p.native('UniformGetClientSampler.__init__', D, 'restart')
   p.native('UniformShuffledClientSampler', D, 'shuffled')
+  for c_ in ('SubsetFederatedData', 'InMemoryFederatedData', 'SQLiteFederatedData'):
+    p.native(c_ + '.shuffled_clients', D, 'shuffled')
+  v_stream_sources(p)
   v_prs(p)
   v_get_sampler(p)
   v_shuffled_sampler(p)
